@@ -13,6 +13,12 @@ def drive (body impl : String) : Verdict :=
     (if get "lost" == "0" then [] else [s!"[lost] {get "lost"} of {total} tasks never ran although the event loops kept scheduling for seconds ({body})"]) ++
     (if get "unfinished" == "0" then [] else [s!"[unfinished] {get "unfinished"} of {total} tasks were started but did not finish within seconds although the event loops kept running ({body})"]) ++
     (if (words impl).any (fun x => x == "ABORT" || x == "HANG") then [s!"[hang-or-abort] {impl}"] else [])
-  { modelOut := s!"once={total} lost=0 dup=0 unfinished=0", spec := [("C01", bad.isEmpty, joinWith " ; " bad)],
+  { modelOut := s!"once={total} lost=0 dup=0 unfinished=0 early=0",
+    spec := [("C01", bad.isEmpty, joinWith " ; " bad),
+             -- a hooked sleep that comes back before its time on a runtime whose coroutines migrate between loop threads:
+             -- its wake-up time went to, or came from, another coroutine (C09), and it is early (C14)
+             ("C09", get "early" == "0", if get "early" == "0" then "" else s!"[foreign-delay] {get "early"} hooked sleeps returned before the time they asked for ({body}): the wake-up time a coroutine registered was not the one applied to it"),
+             ("C14", get "early" == "0", if get "early" == "0" then "" else s!"[early] {get "early"} hooked sleeps in coroutines of a multi-loop runtime returned early ({body})")],
+    blame := some ["C01"],
     labels := [s!"loops{w.headD ""}", s!"threads{w.getD 1 ""}", s!"prio-{w.getD 3 ""}", s!"work-{w.getD 4 ""}"] }
 end Oc.Driver.Once
